@@ -27,7 +27,7 @@ PRIMS = {"int": "int", "str": "str", "float": "float", "bool": "bool"}
 PRELUDE = """\
 from dataclasses import dataclass, field
 from typing import Any, Dict, Generic, List, Optional, Tuple, TypeVar, Union
-from apischema import deserializer, serializer
+from apischema import deserializer, serializer, validator as _validator, ValidationError as _VE
 from apischema.conversions import Conversion, LazyConversion
 from apischema.metadata import conversion as _conv_md
 T = TypeVar("T")
@@ -78,7 +78,7 @@ def render(shape, sfx):
         if kind == "dc":
             out.append("@dataclass")
             out.append(f"class {n}{'(Generic[T])' if c.get('generic') else ''}:")
-            for fname, ft in c["fields"]:
+            for fname, ft in sorted(c["fields"], key=lambda f: f[1][0] in ("opt", "csv")):  # defaults last
                 if ft[0] == "csv":
                     out.append(f"    {fname}: List[str] = field(default_factory=list, metadata=_conv_md(_from_csv, _to_csv))")
                 elif ft[0] == "opt":
@@ -87,6 +87,8 @@ def render(shape, sfx):
                     out.append(f"    {fname}: {ann(ft, sfx)}")
             if not c["fields"]:
                 out.append("    pass")
+            if c.get("validator"):  # class-level validator whose dependencies are the int fields a and b
+                out.append("    @_validator\n    def _check_ab(self):\n        if self.a > self.b:\n            raise _VE(\"a > b\")")
         elif kind in ("idstr", "idlazy", "wrapof"):
             out.append(f"class {n}:")
             out.append("    def __init__(self, v):\n        self.v = v")
@@ -188,7 +190,7 @@ def valid(shape, t, depth, rng, tv=None):
         return [valid(shape, t[1], depth, rng, tv), valid(shape, t[2], depth, rng, tv)]
     if k in ("ref", "gen"):
         c = _cls(shape, t[1])
-        tv2 = t[2] if k == "gen" else tv
+        tv2 = (tv if t[2] == ["tv"] else t[2]) if k == "gen" else tv
         if c["kind"] == "dc":
             return {fn: valid(shape, ft, depth - 1, rng, tv2) for fn, ft in c["fields"]}
         if c["kind"] in ("idstr", "idlazy"):
@@ -224,7 +226,7 @@ def build(shape, t, d, ns, sfx, tv=None):
     if k in ("ref", "gen"):
         c = _cls(shape, t[1])
         cls = ns[f"{t[1]}_{sfx}"]
-        tv2 = t[2] if k == "gen" else tv
+        tv2 = (tv if t[2] == ["tv"] else t[2]) if k == "gen" else tv
         if c["kind"] == "dc":
             return cls(**{fn: build(shape, ft, d[fn], ns, sfx, tv2) for fn, ft in c["fields"]})
         if c["kind"] in ("idstr", "idlazy"):
@@ -328,6 +330,8 @@ def fixed_shapes():
                      "entries": [R("N"), R("K"), L(R("K"))]}
     sh["fieldconv"] = {"classes": [dc("N", ("tags", ["csv"]), ("m", O(R("M")))), dc("M", ("n", O(R("N"))), ("tags", ["csv"]))],
                        "entries": [R("N"), R("M")]}
+    sh["validated"] = {"classes": [dict(dc("N", ("a", I), ("b", I), ("m", O(R("M")))), validator=True), dc("M", ("ns", L(R("N"))), ("n", O(R("N"))))],
+                       "entries": [R("N"), R("M")]}
     sh["lazyrec"] = {"classes": [dc("Foo", ("elements", L(["union", I, R("Foo")])))], "entries": [R("Foo"), L(R("Foo"))], "lazyrec": "Foo"}
     for n, s in sh.items():
         s["name"] = n
@@ -358,8 +362,8 @@ def random_shape(rng, idx):
         classes.append(dc("Leaf", ("z", I)))
     if with_id:
         classes.append({"name": "Id", "kind": rng.choice(["idstr", "idlazy"])})
-    entries = [R(nm) for nm in names]
-    if rng.random() < 0.5:
+    entries = [R(nm) for nm in rng.sample(names, min(n, rng.randrange(2, 5)))]
+    if len(entries) < 4 and rng.random() < 0.5:
         entries.append(L(R(rng.choice(names))))
     return {"name": f"rand{idx}", "classes": classes, "entries": entries}
 
